@@ -52,7 +52,25 @@ fn viol(report: &Report, class: &str, s: &str, msg: String) {
 fn check_fast(report: &Report, s: &str) -> u8 {
     let w = want(s);
     let r = match catch(|| NormalizedString::new(s)) {
-        Ok(r) => obs(r),
+        Ok(r) => {
+            // a copy is the same credential: text, equality, ordering and hash (Clone is how credentials travel)
+            if let Ok(n) = &r {
+                match catch(|| n.clone()) {
+                    Ok(c) => {
+                        let h = |x: &NormalizedString| {
+                            let mut hs = DefaultHasher::new();
+                            x.hash(&mut hs);
+                            hs.finish()
+                        };
+                        if c.as_ref() != n.as_ref() || c != *n || c.cmp(n) != std::cmp::Ordering::Equal || h(&c) != h(n) || format!("{c}") != format!("{n}") {
+                            viol(report, "clone-differs", s, format!("the clone of {:?} is {:?}", n.as_ref(), c.as_ref()));
+                        }
+                    }
+                    Err(m) => viol(report, "panic", s, format!("clone panicked: {m}")),
+                }
+            }
+            obs(r)
+        }
         Err(m) => {
             viol(report, "panic", s, format!("NormalizedString::new panicked: {m}"));
             return 3;
